@@ -8,7 +8,8 @@
 (* where d is what the class itself DECLARES (never anything inherited):   *)
 (*     d = [cq |-> QMap,                      class-level qualifiers       *)
 (*          el |-> [k, p, q, m |-> ED]]       k,p,q properties, m method   *)
-(*     ED = [present, ovr, quals, xquals]     xquals: parameter x of m     *)
+(*     ED = [present, ovr, quals, xquals,     xquals: parameter x of m     *)
+(*           fl, xfl, pars]                   see below                    *)
 (* A QMap is a 4-tuple of value tokens ("" = qualifier not given) for the  *)
 (* qualifier declarations  QA (ToSubclass, EnableOverride),                *)
 (* QB (Restricted, EnableOverride), QC (ToSubclass, DisableOverride) and   *)
@@ -18,6 +19,28 @@
 (* declaration a query exposes.  Names are abstract ids: lexical case is    *)
 (* randomised by the harness when it concretises, and folded when it        *)
 (* projects; results therefore must not depend on it.                       *)
+(*                                                                         *)
+(* FLAVORS ON THE USE.  Every qualifier use may carry explicit flavors      *)
+(* (MOF `[QA("1") : Restricted DisableOverride]`, API CIMQualifier(...,     *)
+(* tosubclass=False, overridable=False)): cfl / fl / xfl are 4-tuples of    *)
+(* pairs <<ts, ov>>, ts \in {"", "T", "R"}, ov \in {"", "E", "D"} ("" = not   *)
+(* given: the flavor of the qualifier declaration applies).  The flavor of *)
+(* the declaration is a DEFAULT; the flavor that governs the flow below a   *)
+(* class is the one of the exposed qualifier use (EX).  One case is left    *)
+(* undecided: a use that restates an inherited DisableOverride qualifier    *)
+(* and says EnableOverride (both readings admissible).                      *)
+(*                                                                         *)
+(* PARAMETER LISTS.  el.m.pars is the parameter list of the method          *)
+(* declaration ("x", "xy", "y", ""); an override whose list differs from    *)
+(* the overridden method's changes the signature: acceptance and refusal    *)
+(* by a CIM error are both admissible (never another exception); below an   *)
+(* accepted signature change the parameters are not judged.                 *)
+(*                                                                         *)
+(* CLIENT OBJECTS.  A class passed to CreateClass/ModifyClass is a VALUE:   *)
+(* events carry the handle `obj` of the client-side object and the          *)
+(* declaration d the client put into it.  Passing the same object again     *)
+(* means passing d again; "ClientEdit" (the client changes an object it     *)
+(* passed or received, no request) leaves the forest unchanged.             *)
 (*                                                                         *)
 (* Exposed(c) is defined declaratively by recursion over the ancestors:    *)
 (* nearest declaration wins (Nearest), class_origin = first introducer     *)
@@ -89,18 +112,42 @@ LocalQ(F, c, pos) == IF pos = "cls" THEN F[c].d.cq
                      ELSE IF pos = "mx" THEN F[c].d.el["m"].xquals
                      ELSE F[c].d.el[pos].quals
 
-(* admissible exposed values of qualifier i at position pos of class c *)
-RECURSIVE EQ(_, _, _, _)
-EQ(F, c, pos, i) ==
+LocalFl(F, c, pos) == IF pos = "cls" THEN F[c].d.cfl
+                      ELSE IF pos = "mx" THEN F[c].d.el["m"].xfl
+                      ELSE F[c].d.el[pos].fl
+NoFl == <<"", "">>
+FL0 == <<NoFl, NoFl, NoFl, NoFl>>
+(* effective flavor <<tosubclass, overridable>> of a local use *)
+UseFlavor(fl, i) == << IF fl[i][1] = "" THEN ToSub(i) ELSE fl[i][1] = "T",
+                       IF fl[i][2] = "" THEN Overridable(i) ELSE fl[i][2] = "E" >>
+NoQ == [v |-> {""}, f |-> {}]
+
+(* EX(F, c, pos, i) = [v |-> admissible exposed values of qualifier i at    *)
+(* position pos of class c, f |-> admissible flavors <<ts, ov>> of that     *)
+(* exposed use] (f = {} when nothing is exposed; ts is always determined)   *)
+RECURSIVE EX(_, _, _, _)
+EX(F, c, pos, i) ==
   LET lv == LocalQ(F, c, pos)[i]
-      inh == PosInherited(F, c, pos) IN
+      inh == PosInherited(F, c, pos)
+      up == EX(F, Par(F, c), pos, i) IN
   IF PosRedecl(F, c, pos)
-  THEN IF lv # "" THEN {lv}                      \* given locally: it wins
-       ELSE IF inh /\ ToSub(i) THEN EQ(F, Par(F, c), pos, i)   \* flows down
-       ELSE {""}                                 \* Restricted: must not flow
+  THEN IF lv # ""                                \* given locally: it wins
+       THEN LET base == UseFlavor(LocalFl(F, c, pos), i)
+                doubt == /\ inh /\ base[2] /\ up.v # {""}
+                         /\ \E f \in up.f : f[1] /\ ~f[2] IN
+            [v |-> {lv},
+             f |-> IF doubt THEN {base, <<base[1], FALSE>>} ELSE {base}]
+       ELSE IF inh
+       THEN LET flow == {f \in up.f : f[1]} IN     \* ToSubclass flows down
+            [v |-> (IF flow # {} THEN up.v ELSE {})
+                   \cup (IF flow # up.f \/ up.f = {} THEN {""} ELSE {}),
+             f |-> flow]                          \* Restricted: must not flow
+       ELSE NoQ
   ELSE \* the class does not redeclare the element: it is the ancestor's
-       IF ToSub(i) THEN EQ(F, Par(F, c), pos, i)
-       ELSE EQ(F, Par(F, c), pos, i) \cup {""}   \* DSP0004 ambiguous: both
+       [v |-> IF \A f \in up.f : f[1] THEN up.v
+              ELSE up.v \cup {""},                 \* DSP0004 ambiguous: both
+        f |-> up.f]
+EQ(F, c, pos, i) == EX(F, c, pos, i).v
 
 PosKind(F, c, pos) ==
   IF pos = "cls"
@@ -115,21 +162,51 @@ RestatedAbove(F, c, pos, i) ==
      /\ PosRedecl(F, a, pos) /\ PosInherited(F, a, pos)
      /\ LocalQ(F, a, pos)[i] # ""
      /\ EQ(F, Par(F, a), pos, i) # {""}
+FlavorOnUse(F, c, pos, i) ==     \* c or an ancestor gives explicit flavors
+  \E a \in Anc(F, c) : /\ LocalQ(F, a, pos)[i] # ""
+                       /\ LocalFl(F, a, pos)[i] # NoFl
 QDetail(F, c, pos, i) ==
   PosKind(F, c, pos) \o "." \o FlavorText(i) \o
-  (IF RestatedAbove(F, c, pos, i) THEN ".belowRestatingAncestor" ELSE "")
+  (IF RestatedAbove(F, c, pos, i) THEN ".belowRestatingAncestor" ELSE "") \o
+  (IF FlavorOnUse(F, c, pos, i) THEN ".flavorOnUse" ELSE "")
 
 (*------------- which class declarations must be refused -------------------*)
 NoOverride(F, c) ==          \* redeclares an inherited element w/o Override
   {e \in Elems : Declares(F, c, e) /\ ~F[c].d.el[e].ovr /\ Inherited(F, c, e)}
+Restates(F, c, pos, i) ==    \* gives a qualifier the position also inherits
+  /\ PosRedecl(F, c, pos) /\ PosInherited(F, c, pos)
+  /\ LocalQ(F, c, pos)[i] # ""
+  /\ EQ(F, Par(F, c), pos, i) # {""}
 DisableConflicts(F, c) ==    \* DisableOverride qualifier with another value
   {pi \in Positions \X QI :
      LET pos == pi[1]
-         i == pi[2] IN
-     /\ ~Overridable(i) /\ PosRedecl(F, c, pos) /\ PosInherited(F, c, pos)
-     /\ LocalQ(F, c, pos)[i] # ""
-     /\ EQ(F, Par(F, c), pos, i) # {""}
-     /\ LocalQ(F, c, pos)[i] \notin EQ(F, Par(F, c), pos, i)}
+         i == pi[2]
+         up == EX(F, Par(F, c), pos, i) IN
+     /\ Restates(F, c, pos, i)
+     /\ up.f # {} /\ \A f \in up.f : f[1] /\ ~f[2]
+     /\ LocalQ(F, c, pos)[i] \notin up.v}
+(* the statement does not decide: restating a (Restricted, DisableOverride) *)
+(* qualifier, or changing a value whose DisableOverride flavor an ancestor  *)
+(* restated as EnableOverride                                               *)
+UndecidedRestate(F, c) ==
+  {pi \in (Positions \X QI) \ DisableConflicts(F, c) :
+     LET pos == pi[1]
+         i == pi[2]
+         up == EX(F, Par(F, c), pos, i) IN
+     /\ Restates(F, c, pos, i)
+     /\ \E f \in up.f : ~f[2]
+     /\ ~((\A f \in up.f : f[1]) /\ LocalQ(F, c, pos)[i] \in up.v)}
+(* parameter list of the method c exposes; an override that changes it *)
+ParsOf(F, c) == F[Nearest(F, c, "m")].d.el["m"].pars
+HasX(pars) == pars \in {"x", "xy"}
+SubPars(a, b) == a = b \/ a = "" \/ (b = "xy" /\ a \in {"x", "y"})
+SigChange(F, c) == /\ Declares(F, c, "m") /\ Inherited(F, c, "m")
+                   /\ F[c].d.el["m"].pars # ParsOf(F, Par(F, c))
+SigChangedAbove(F, c) == \E a \in Anc(F, c) : SigChange(F, a)
+Undecided(F, c) == UndecidedRestate(F, c) # {} \/ SigChange(F, c)
+UndecidedText(F, c) == IF SigChange(F, c)
+                       THEN "overriding-method.parameterListDiffers"
+                       ELSE "restatedDisableOverrideQualifier"
 DanglingOverride(F, c) ==    \* Override on an element nobody declared: silent
   {e \in Elems : Declares(F, c, e) /\ F[c].d.el[e].ovr /\ ~Inherited(F, c, e)}
 
@@ -137,7 +214,9 @@ RejectClauses(op, F, c) ==
   {op \o ".AcceptedRedeclarationWithoutOverride." \o ElType(e) :
        e \in NoOverride(F, c)}
   \cup {op \o ".AcceptedDisableOverrideConflict." \o
-           QDetail(F, c, pi[1], pi[2]) : pi \in DisableConflicts(F, c)}
+           QDetail(F, c, pi[1], pi[2]) :
+             pi \in {x \in DisableConflicts(F, c) :
+                      x[1] # "mx" \/ ~SigChangedAbove(F, c)}}
 
 IsRejection(e) == ~e.ok /\ (e.kind = "cimerror" \/
                             (e.via = "mof" /\ e.kind = "moferror"))
@@ -158,6 +237,9 @@ CreateJudge(s, e) ==
        IF must # {}
        THEN IF e.ok THEN must
             ELSE F1("Create.RejectionNotCIMError", IsRejection(e))
+       ELSE IF Undecided(F2, c)
+       THEN F1("Create.NeitherAcceptedNorRejectedByCIMError." \o
+                  UndecidedText(F2, c), e.ok \/ IsRejection(e))
        ELSE F1("Create.ValidClassRejected",
                e.ok \/ DanglingOverride(F2, c) # {})
 
@@ -172,6 +254,9 @@ ModifyJudge(s, e) ==
        IF must # {}
        THEN IF e.ok THEN must
             ELSE F1("Modify.RejectionNotCIMError", IsRejection(e))
+       ELSE IF Undecided(F2, c)
+       THEN F1("Modify.NeitherAcceptedNorRejectedByCIMError." \o
+                  UndecidedText(F2, c), e.ok \/ IsRejection(e))
        ELSE F1("Modify.ValidModificationRejected",
                e.ok \/ busy \/ DanglingOverride(F2, c) # {})
 
@@ -201,10 +286,13 @@ ElemClauses(F, c, e, r, exact, pre) ==
        \cup F1(pre \o ".Propagated." \o kd \o ".is" \o r.prop,
                r.prop \in PropAdm(F, c, e) \/ (~exact /\ r.prop = "N"))
        \cup QualClauses(F, c, e, r.quals, exact, pre)
-       \cup (IF e # "m" THEN {}
-             ELSE IF ~r.hasx
-             THEN F1(pre \o ".Parameter." \o kd \o ".missing", ~exact)
-             ELSE QualClauses(F, c, "mx", r.xquals, exact, pre))
+       \cup (IF e # "m" \/ SigChangedAbove(F, c) THEN {}
+             ELSE F1(pre \o ".Parameter." \o kd \o
+                        ".parameterListNotOfNearestDeclaration",
+                     IF exact THEN r.pars = ParsOf(F, c)
+                     ELSE SubPars(r.pars, ParsOf(F, c)))
+                  \cup (IF ~r.hasx \/ ~HasX(ParsOf(F, c)) THEN {}
+                        ELSE QualClauses(F, c, "mx", r.xquals, exact, pre)))
 
 ClassClauses(F, c, r, exact, pre) ==
   F1(pre \o ".ClassName", r.name = c)
@@ -310,7 +398,7 @@ JudgeHard(s, e) ==
     [] e.op = "EnumClasses" -> EnumClassesHard(s, e)
     [] e.op \in {"EnumInst", "EnumInstNames"} -> EnumInstJudge(s, e)
     [] e.op = "Delete" -> DeleteJudge(s, e)
-    [] e.op \in {"CreateInst", "End"} -> {}
+    [] e.op \in {"CreateInst", "End", "ClientEdit"} -> {}
     [] OTHER -> {"UnknownOperation"}
 JudgeSoft(s, e) == IF e.op = "EnumClasses" THEN EnumClassesSoft(s, e) ELSE {}
 Judge(s, e) == JudgeHard(s, e) \cup JudgeSoft(s, e)
